@@ -431,11 +431,12 @@ class Circuit:
                 ll.reader = node_map[inn]  # connect to existing fork
                 ll.reader_pin = 0
             ll.reader.ins[ll.reader_pin] = ll
+        open_drivers = []
         for l, ll in zip(impl_out_lines, node_out_lines):  # connect outputs
             if ll is not None and ll.circuit is None: ll = None  # line was removed above (it fed an ignored input of this very node)
             if ll is None:
                 if l.driver in node_map:
-                    self.remove_dangling_nodes(node_map[l.driver])
+                    open_drivers.append(node_map[l.driver])
                 continue
             if len(l.reader.outs) > 0:  # output is also read by impl. circuit, connect to fork.
                 ll.driver = node_map[l.reader]
@@ -444,6 +445,8 @@ class Circuit:
                 ll.driver = node_map[l.driver]
                 ll.driver_pin = l.driver_pin
             ll.driver.outs[ll.driver_pin] = ll
+        for d in open_drivers:  # prune the logic of unconnected outputs only after all connected outputs are attached
+            self.remove_dangling_nodes(d)
 
     def resolve_tlib_cells(self, tlib):
         """Substitute all technology library cells with kyupy native simulation primitives.
